@@ -49,4 +49,16 @@ PROPS = {
             "termination of the search for a matching pair is probabilistic (each candidate passes the filters with constant probability) and is observed, not proved",
         ],
     },
+    "C17": {
+        "trusted": [
+            "SCOPE (partial claim): the theorems cover the component proofs (four Gennaro proofs, representation proof, range proof arithmetic, OR-composition, Fiat-Shamir input); the composed proof tree (exp.go, primeproof.go, issquareproof.go, top of validkeyproof.go) is NOT modelled: whole-proof ops are checked against by-construction labels only (the Lean side answers with the specification verdict)",
+            "statistical soundness bounds of the component proofs are not proved; 'reject' labels on bad moduli rely on them (error <= 2^-80 at the sizes generated)",
+            "primality in the model (ProbablyPrime, safe-prime tests) is an executable Miller-Rabin oracle",
+            "hooks keyproof/verif_export_c17.go export the unexported component functions; VerifChallengeSegments re-assembles the hash input with the package's own commitmentsFromProof functions and is tied to BuildProof by the challenge equality it is checked with",
+        ],
+        "assumptions": COMMON_ASSUME + [
+            "proof integers are non-negative (big.Int JSON decoding refuses negative numbers); the range proof's size limit is one-sided in the code",
+            "SHA-256 collision resistance enters through property C15 only",
+        ],
+    },
 }
